@@ -163,6 +163,11 @@ def gen_override(rng, voc, base, depth=3, p_tag=0.3):
             p = tuple((k - lens[p[:i]]) if (isinstance(k, int) and p[:i] in lens and rng.random() < 0.3) else k for i, k in enumerate(p))
             if rng.random() < 0.2:
                 p = p + (rng.choice(STR_KEYS + [0, 5]),)
+            if lens and rng.random() < 0.1:
+                # a position just outside a list that exists: past the end, or counted from the end beyond the start (S6-C02, S8-C02)
+                lp = rng.choice(sorted(lens, key=str))
+                if lp:
+                    p = lp + (rng.choice([-lens[lp] - 1, -lens[lp] - 2, lens[lp], lens[lp] + 1]),)
         else:
             p = (rng.choice(STR_KEYS),)
         if p in subs and rng.random() < P_RESTATE:
